@@ -785,7 +785,70 @@ func c09FuncKey(fd *ast.FuncDecl) string {
 			typ = id.Name
 		}
 	}
+	if typ == "" {
+		return fd.Name.Name
+	}
 	return typ + "." + fd.Name.Name
+}
+
+// c09CallGraph: syntactic call graph of the package (non-test files), over-approximated: an edge for every
+// mention of a package function (called or used as a value) and, for every selector `.m`, to every method
+// called m of any type of the package.  Closures belong to the function that contains them.
+func c09CallGraph(files []*ast.File, x *c09Extract) map[string][]string {
+	byName := map[string][]string{}
+	for _, ms := range x.methods {
+		for n, fd := range ms {
+			byName[n] = append(byName[n], c09FuncKey(fd))
+		}
+	}
+	g := map[string][]string{}
+	for _, f := range files {
+		for _, d := range f.Decls {
+			fd, ok := d.(*ast.FuncDecl)
+			if !ok {
+				continue
+			}
+			from := c09FuncKey(fd)
+			g[from] = append(g[from]) // every function is a node
+			if fd.Body == nil {
+				continue
+			}
+			ast.Inspect(fd.Body, func(n ast.Node) bool {
+				switch n := n.(type) {
+				case *ast.Ident:
+					if x.funcs[n.Name] != nil {
+						g[from] = append(g[from], n.Name)
+					}
+				case *ast.SelectorExpr:
+					if id, ok := n.X.(*ast.Ident); !ok || !x.imports[id.Name] {
+						g[from] = append(g[from], byName[n.Sel.Name]...)
+					}
+				}
+				return true
+			})
+		}
+	}
+	return g
+}
+
+func c09Reach(g map[string][]string, roots []string) []string {
+	seen := map[string]bool{}
+	todo := append([]string{}, roots...)
+	for len(todo) > 0 {
+		n := todo[len(todo)-1]
+		todo = todo[:len(todo)-1]
+		if seen[n] {
+			continue
+		}
+		seen[n] = true
+		todo = append(todo, g[n]...)
+	}
+	var out []string
+	for n := range seen {
+		out = append(out, n)
+	}
+	sort.Strings(out)
+	return out
 }
 
 // c09Writers lists every (name, function) such that the function assigns to, increments or takes
@@ -829,7 +892,7 @@ func c09Writers(files []*ast.File, names, analysed map[string]bool) []c09Writer 
 			note := func(e ast.Expr) {
 				for _, n := range chain(e) {
 					if names[n] {
-						seen[c09Writer{n, fd.Name.Name}] = true
+						seen[c09Writer{n, c09FuncKey(fd)}] = true
 					}
 				}
 			}
@@ -977,11 +1040,62 @@ func c09Facts() (text string, err error) {
 		return "[" + strings.Join(ys, ", ") + "]"
 	}
 	fmt.Fprintf(&b, "/-- allocator fields / package variables the two methods (and their helpers) read outside the lock-protected set -/\ndef peeked : List String := %s\n", q(pk))
-	var ws []string
+	// Init-only argument: a function that writes a peeked name must run during initialisation only, i.e. be
+	// reachable from the initialisation entry and NOT from the two methods (or anything that may run at any
+	// time: functions stored in package variables).
+	graph := c09CallGraph(files, x)
+	if x.funcs["Init"] == nil {
+		return "", fmt.Errorf("skeleton extraction failed: initialisation entry Init not found")
+	}
+	initEntries := []string{"Init"}
+	runEntries := []string{x.typ + ".AllocFrame", x.typ + ".FreeFrame"}
+	for _, f := range files {
+		for _, d := range f.Decls {
+			if gd, ok := d.(*ast.GenDecl); ok && gd.Tok == token.VAR {
+				ast.Inspect(gd, func(n ast.Node) bool {
+					switch n := n.(type) {
+					case *ast.Ident:
+						if x.funcs[n.Name] != nil {
+							runEntries = append(runEntries, n.Name)
+						}
+					case *ast.SelectorExpr:
+						if id, ok := n.X.(*ast.Ident); !ok || !x.imports[id.Name] {
+							for _, ms := range x.methods {
+								if fd := ms[n.Sel.Name]; fd != nil {
+									runEntries = append(runEntries, c09FuncKey(fd))
+								}
+							}
+						}
+					}
+					return true
+				})
+			}
+		}
+	}
+	sort.Strings(runEntries)
+	initReach, runReach := c09Reach(graph, initEntries), c09Reach(graph, runEntries)
+	inList := func(xs []string, s string) bool {
+		for _, y := range xs {
+			if y == s {
+				return true
+			}
+		}
+		return false
+	}
+	var ws, bad []string
 	for _, w := range c09Writers(files, x.peeked, x.analysed) {
-		ws = append(ws, fmt.Sprintf("(%q, %q)", w.name, w.fn))
+		e := fmt.Sprintf("(%q, %q)", w.name, w.fn)
+		ws = append(ws, e)
+		if !inList(initReach, w.fn) || inList(runReach, w.fn) {
+			bad = append(bad, e)
+		}
 	}
 	fmt.Fprintf(&b, "/-- every (name, function) of the package where the function assigns to or takes the address of a peeked name -/\ndef writers : List (String × String) := [%s]\n", strings.Join(ws, ", "))
+	fmt.Fprintf(&b, "/-- entry of the initialisation, which runs once before the allocator is shared -/\ndef initEntries : List String := %s\n", q(initEntries))
+	fmt.Fprintf(&b, "/-- what may run at any time: the two methods and every function stored in a package variable -/\ndef runEntries : List String := %s\n", q(runEntries))
+	fmt.Fprintf(&b, "/-- functions reachable from initEntries in the (over-approximated, syntactic) call graph of the package -/\ndef initReach : List String := %s\n", q(initReach))
+	fmt.Fprintf(&b, "/-- functions reachable from runEntries -/\ndef runReach : List String := %s\n", q(runReach))
+	fmt.Fprintf(&b, "/-- writers that are not initialisation-only: not reachable from initEntries, or reachable from runEntries (expected: none) -/\ndef initOnlyWriters : List (String × String) := [%s]\n", strings.Join(bad, ", "))
 	var cs []string
 	for n := range x.callees {
 		cs = append(cs, n)
